@@ -56,6 +56,51 @@ fn c02_shard(ctx: &Ctx, out: &mut ShardOut) {
         run_copy_case(c).map_err(|m| CaseFail { prop: "C02".into(), msg: m })?;
         Ok(CaseInfo { nontrivial: c.items.len() > 12 && c.hint < 128, classes: vec![("copyapi_cases", 1)], evaluations: 1, sub_hashes: vec![] })
     });
+    run_big(ctx, out, "C02", C02_OR, 0);
+}
+
+/// long histories over thousands of keys: every bulk operation at a scale the generated cases never
+/// reach (more than 1024 removals in one retain, several consecutive resizes, big tree bins)
+pub fn big_case(i: usize) -> SeqCase {
+    let sizes = [1100u16, 1500, 2100, 3100, 4200, 6000, 1030, 2060];
+    let n = sizes[i % sizes.len()];
+    let hmode = [HMode::Mix, HMode::Identity, HMode::SameBin, HMode::Mix, HMode::PairBin, HMode::Identity, HMode::Const0, HMode::Mix][(i / 2) % 8];
+    let facade = [Facade::Guarded, Facade::Pin, Facade::WithGuard, Facade::Long(7)][i % 4];
+    let cfg = Cfg { hmode, capacity: [0u32, 64, 5000][i % 3], facade, batch: [8u32, 120, 1][i % 3], universe: n, keymap: KeyMap::Dense, set: false };
+    let ops = vec![
+        Op::Fill(0, n),
+        Op::Iterate(0),
+        Op::Retain(crate::model::Pred::KeyMod(5, (i % 5) as u8)),
+        Op::Iterate(1),
+        Op::Fill(0, n),
+        Op::RetainForce(crate::model::Pred::KeyLess(3)),
+        Op::Fill(0, n),
+        Op::CloneSwap,
+        Op::EqCheck,
+        Op::Retain(crate::model::Pred::False),
+        Op::Extend((0..n).step_by(2).collect(), 200),
+        Op::Collect((0..n).rev().collect(), 10),
+        Op::Drain(0, n / 2),
+        Op::RetainForce(crate::model::Pred::ValEven),
+        Op::Debug,
+        Op::Clear,
+        Op::Fill(n / 3, n / 3),
+        Op::RetainForce(crate::model::Pred::False),
+    ];
+    SeqCase { cfg, ops }
+}
+
+pub fn run_big(ctx: &Ctx, out: &mut ShardOut, asked: &'static str, or: Oracles, salt: usize) {
+    let c = big_case(ctx.shard + salt);
+    ctx.mark_inflight("map", &serde_json::to_string(&c).unwrap());
+    out.evaluations += 1;
+    out.class("long_histories_over_thousands_of_keys", 1);
+    match run_map_case(&c, or) {
+        Ok(_) => {
+            out.nontrivial.insert(hash_str(&format!("big{}", ctx.shard + salt)));
+        }
+        Err(f) => out.violations.push(Viol { prop: asked.into(), msg: format!("[{}] step {}: {}", f.prop, f.step, f.msg), replay: serde_json::json!({"sub": "map", "case": c}) }),
+    }
 }
 
 fn c02_replay(sub: &str, case: &Value) -> Result<(), CaseFail> {
